@@ -35,7 +35,8 @@ ASSUMPTIONS = ['all values of f finite (no NaN) except in the dedicated NaN-bran
                '_get_arg_min falls back to row 0 for every column (outside the property\'s domain)']
 NOT_DECIDED = ['"within the error estimate" clause for the complex-step methods under rounding (the term identity is proved '
                'for them as well)']
-BOUNDED = ['complex-step-concrete: 48 concrete (method, n, f, array) cases executed in floating point with the real numpy (arrays with exact roots of a power base next to ordinary elements) -- not proved',
+BOUNDED = ['elementwise-concrete: 64 (function, method, n, array) cases with the library default step generator, arrays mixing magnitudes 1e-3..1e10 and elements where every estimate is nan; value, error estimate and final step of each element compared bit-for-bit with its scalar evaluation -- executed, not proved',
+           'complex-step-concrete: 48 concrete (method, n, f, array) cases executed in floating point with the real numpy (arrays with exact roots of a power base next to ordinary elements) -- not proved',
            'array shapes with at most 6 elements are executed (the argument is uniform in the shape)']
 QUANTIFIED = 'all elements of x, all values of the uninterpreted element-wise g and of the nominal-step function: universally quantified'
 
@@ -56,6 +57,7 @@ def groups(tier):
     out = [('deriv[%s,n=%d,order=%d]' % c, ('deriv',) + c) for c in cfgs(tier)]
     out += [('best-estimate[%d,%d]' % kn, ('best',) + kn) for kn in [(4, 2), (3, 3), (6, 2), (1, 2), (2, 1)]]
     out.append(('zero-order', ('zero',)))
+    out.append(('elementwise-concrete', ('econc',)))
     out.append(('complex-step-concrete', ('cconc',)))
     return out
 
@@ -273,7 +275,17 @@ def run_cconc():
     return {}
 
 
+def run_econc():
+    import numdifftools as nd
+    from ndvc.concrete import elementwise_default_step_cases
+    cnt, bad = elementwise_default_step_cases(nd)
+    solve.fact('default-step-generator:element-in-array-bit-identical-to-element-alone(mixed-magnitudes,all-nan-neighbours)[%d arrays]' % cnt, not bad,
+               kind='bounded', note=str(bad[:1])[:400])
+    return {}
+
 def run_group(args):
+    if args[0] == 'econc':
+        return run_econc()
     if args[0] == 'cconc':
         return run_cconc()
     if args[0] == 'zero':
@@ -284,6 +296,8 @@ def run_group(args):
 
 
 def replay_case(ob):
+    if ob['name'].startswith('elementwise-concrete/'):
+        return dict(kind='C08.econc')
     import re
     if ob['name'].startswith('complex-step-concrete/'):
         return dict(kind='C08.cconc')
